@@ -69,6 +69,16 @@ HISTORY = {
     "C03-r6-2": "round 6. options not restored when an exception crosses the block: caught by C14 (the property about exit paths); C03 never lets an exception cross an option block",
     "C15-r6-2": "round 6. first run: missed - the seed exposed a dead monitor: C15's extra operation 'divmod' had been shadowed by the later catalogue entry of the same name (numeric divmod, which refuses polynomials, so every case was skipped as 'fails under defaults too'). Renamed to poly_divmod (with / and %), weighted x4, an assertion forbids such shadowing and every extra operation is a required counter now",
     "C05-r6-2": "round 6. first run: missed by C05 and C15; divisors (and sometimes dividends) now also come with uint8..uint64 / int8 / int16 coefficients",
+    "C18-r7-1": "round 7 (hard mode). first run: missed by C18 and C17; after every glexindex / bindex case the returned array is overwritten and the same call repeated (no shared or cached result arrays)",
+    "C13-r7-1": "round 7. first run: missed; text cases now also write two arrays one after the other into one StringIO / BytesIO and load them back in order (max_rows)",
+    "C08-r7-2": "round 7. first run: missed by C08 and C10; the reduce form now also calls the method of the same name (poly.prod(), .all(), .max() ... with and without arguments) and multiply.reduce operands come with names that do not start at q0 and in narrow / unsigned dtypes",
+    "C19-r7-1": "round 7. first run: missed; lead_exponent / lead_coefficient / sortable_proxy are now also called with positional flags (poly, graded, reverse)",
+    "C02-r7-2": "round 7. first run: missed; the carrier rider now also carries the integers as int16 / uint8 / int8 / uint16 whenever every single power fits that type (the product across arguments is formed in 64 bit), with values 12 and 20 in the pool",
+    "C12-r7-1": "round 7. first run: missed by C12 and C09; the dtype request is now also made on data spelled as nested lists, tuples of lists and lists of polynomial arrays",
+    "C12-r7-2": "round 7. reshape ignoring order=: values end up at other positions, dtype and the set of values unchanged; caught by C09 (element placement), not a C12 clause",
+    "C11-r7-1": "round 7. first run: missed; the division guard now also hands the non-constant divisor over as list / tuple / nested list containing polynomials (numpoly spelling, or numpy spelling with a polynomial dividend)",
+    "C17-r7-1": "round 7. first run: missed; new direct workload copyto_poly: a source whose terms are stored in shuffled order is copied (both spellings, and into a destination that lacks a term) and must stay unchanged",
+    "C17-r7-2": "round 7. first run: missed; new direct workload foreign_arrays: big-endian / float32 ndarrays as data and operands, bytes compared before and after",
     "C06-2": "first run: caught by C06, missed by C15; C15's derivative entry now differentiates with respect to several variables",
 }
 REJECTED = [
